@@ -79,6 +79,8 @@ class C19(Prop):
     required_labels = {'quick': ['kind=sched', 'kind=exp', 'refused=True', 'nontrivial=True'],
                        'thorough': ['kind=sched', 'kind=exp', 'refused=True', 'nontrivial=True']}
 
+    fuzz = {'thorough': {'runs': 20000, 'max_time': 60, 'procs': 4}}
+
     def strategy(self, tier):
         return st.one_of(_sched_case(), _sched_case(), _sched_case(), _exp_case())
 
